@@ -1,4 +1,4 @@
-//@unit U14 props=C01,C02,C03,C11,C13,C14 RenetClient::from_channels: channel kinds wired as configured (renet/src/remote_connection.rs)
+//@unit U14 props=C01,C02,C03,C06,C08,C11,C13,C14 RenetClient::from_channels: channel kinds wired as configured (renet/src/remote_connection.rs)
 #![feature(allocator_api)]
 #![allow(unused_imports, dead_code, unused_variables, unused_mut)]
 use vstd::prelude::*;
